@@ -95,7 +95,7 @@ class C05(Prop):
     id = 'C05'
     rule = ('forests of events: 1-3 roots (mostly complete=True), handlers (plain / raising / stop() / generator / raising '
             'generator) firing children at start and from later generator steps (fan-out<=2 per site, depth<=3/4), nested '
-            'complete-requesting descendants, complete_channels, descendants cancelled right after being fired; under '
+            'complete-requesting descendants, complete_channels, descendants cancelled right after being fired, generator steps that pause with sleep(0) or call() an event; plus enumerated chains of 40..1500 (thorough 4000) links; under '
             'tick() and run(); non-trivial = a complete-requesting event whose closure has >=3 fired events including an '
             'abnormal member (cancelled, stopped, raising, or fired from a generator step); distinct = spec hash')
     assumptions = ('ghost causality = the spec tree (a child belongs to the event whose handler fired it)',
